@@ -45,8 +45,8 @@ def wtriples(ws):
 
 
 @st.composite
-def fitted_cases(draw, family=None, cheap=True):
-    b = draw(zoo.baseline(family=family, cheap=cheap, full_year=False))
+def fitted_cases(draw, family=None, cheap=True, profiles=None):
+    b = draw(zoo.baseline(family=family, cheap=cheap, full_year=False, profiles=profiles))
     rs = [draw(zoo.reporting(b)) for _ in range(3)]
     rs[0]["T_shift"] = 0.0
     rs[1]["T_shift"] = draw(st.sampled_from([25.0, -30.0]))
@@ -241,27 +241,32 @@ def judge(c, rec):
     JUDGES[c["kind"]](c, rec)
 
 
+def _split(items, k):
+    return [items[i::k] for i in range(k) if items[i::k]]
+
+
 def shards(tier, seed):
     q = tier == "quick"
     out = []
     for i in range(4):
         out.append({"sub": "docs", "n": 120 if q else 2500, "seed": mix(seed, ID, "docs", i)})
-    for i in range(4):
-        out.append({"sub": "daily", "n": 5 if q else 40, "seed": mix(seed, ID, "daily", i), "cheap": not (i == 0)})
-    for i in range(3):
-        out.append({"sub": "billing", "n": 5 if q else 40, "seed": mix(seed, ID, "billing", i)})
-    for i in range(4):
-        out.append({"sub": "hourly", "n": 4 if q else 40, "seed": mix(seed, ID, "hourly", i)})
-    out.append({"sub": "caltrack", "n": 2 if q else 12, "seed": mix(seed, ID, "caltrack")})
+    # every constructor profile is fitted at least once in each tier
+    for i, profs in enumerate(_split(list(zoo.DAILY_PROFILES), 4)):
+        out.append({"sub": "daily", "profiles": profs, "per": 1 if q else 10, "seed": mix(seed, ID, "daily", i)})
+    for i, profs in enumerate(_split(list(zoo.BILLING_PROFILES), 2)):
+        out.append({"sub": "billing", "profiles": profs, "per": 2 if q else 20, "seed": mix(seed, ID, "billing", i)})
+    for i, profs in enumerate(_split(list(zoo.HOURLY_PROFILES), 5)):
+        out.append({"sub": "hourly", "profiles": profs, "per": 1 if q else 8, "seed": mix(seed, ID, "hourly", i)})
+    out.append({"sub": "caltrack", "profiles": ["caltrack"], "per": 2 if q else 12, "seed": mix(seed, ID, "caltrack")})
     return out
 
 
 def run_shard(spec, rec):
     if spec["sub"] == "docs":
         explore(doc_cases(), judge, rec, max_examples=spec["n"], seed=spec["seed"], shrink=True)
-    else:
-        explore(fitted_cases(family=spec["sub"], cheap=spec.get("cheap", True)), judge, rec, max_examples=spec["n"], seed=spec["seed"],
-                shrink=False)
+        return
+    for j, prof in enumerate(spec["profiles"]):
+        explore(fitted_cases(family=spec["sub"], profiles=[prof]), judge, rec, max_examples=spec["per"], seed=mix(spec["seed"], prof), shrink=False)
 
 
 def replay(case, rec):
